@@ -1,5 +1,5 @@
 // ---- prelude std.rs: assumed contracts on core/std functions that vstd does not specify ----
-pub assume_specification<T, E> [Result::<T, E>::unwrap_or] (r: Result<T, E>, default: T) -> (v: T)
+pub assume_specification<T, E> [std::result::Result::<T, E>::unwrap_or] (r: std::result::Result<T, E>, default: T) -> (v: T)
     ensures v == (match r { Ok(x) => x, Err(_) => default });
 use std::io;
 #[verifier::external_type_specification]
